@@ -527,3 +527,33 @@ addendum('C15', 'R9 one-shot iterators in the mutators.')
 addendum('C18', 'R3: results discarded after a success do not move the '
          'resume position (linear forms with min); pid / thread-id values '
          'are followed to file names and equality tests (R1b).')
+
+
+# ---- round 6 (DESIGN.md 8.4, "Round 6")
+addendum('C01', 'R4: with a thread pool in a strategy the candidate name '
+         'must also depend on the thread.')
+addendum('C02', 'R8 includes the depth-limit convention of the walkers '
+         '(C12.R5); R10 = per-mutator containment inside the loop over the '
+         'mutators (C04.R1); R11 = text-carrying part of the pickle format '
+         '(C12.R1).')
+addendum('C03', 'R4: the filter of SimplifySymbolNames is judged on its '
+         'decision structure (no accepting valuation without "not '
+         'is_const").')
+addendum('C04', 'R1: the guard of a mutator call sits inside the loop over '
+         'the mutators; R12 no signal to the own process group (C06.R4); '
+         'R13 worker-read globals are set before the pool is created; R14 '
+         'leaf texts are indexed in the renderers only when non-empty.')
+addendum('C06', 'R4 also covers os.killpg on the child\'s group; R7 = the '
+         'output file is written at the adoption sites only (write part of '
+         'C01.R2).')
+addendum('C09', 'R10 = candidate file private and complete (C01.R4).')
+addendum('C10', 'R8: the recorded run time is wall-clock time around the '
+         'child.')
+addendum('C11', 'R6 also recognises closure factories; R11: substitute '
+         'returns None only for a single node.')
+addendum('C12', 'R5 depth-limit convention: constants reaching a walker\'s '
+         'limit that do not denote a positive depth must mean "no limit" '
+         'there (path evaluation of the walker for that constant).')
+addendum('C14', 'R9: registry dicts are read-only for their users when a '
+         'registry is a shared object; R11 = per-mutator containment '
+         '(C04.R1).')
